@@ -11,8 +11,8 @@ import Ebv.Generated.Consts
   the `s % n`-th of the `n` pending requests (arrival order): a sent request is processed by the
   bus *now* (a probe FPRD at address `a` is answered iff some terminal currently has `a`), a
   processed one is delivered and the task runs, without interruption, up to its next `await`.
-* `random.randint(*terminal_addr_range)` is `draw r` for the next raw PRNG output `r`
-  (inclusive on both ends); `used_addresses` is kept as the code keeps it: the membership test and
+* `random.randint(*self.terminal_addr_range)` is `draw cfg r` for the next raw PRNG output `r`
+  (inclusive on both ends); the range is the one configured for this master (`cfg.lo`, `cfg.hi`); `used_addresses` is kept as the code keeps it: the membership test and
   the insert happen in `beginFind`, before the probe is sent.
 * `returned`, `answered`, `cleared`, `written`, `log` only record what happened (ghost state).
 -/
@@ -21,8 +21,6 @@ open Ebv.Consts
 
 /-- `random.randint(lo, hi)` as a function of the raw PRNG output -/
 def randint (lo hi r : Nat) : Nat := lo + r % (hi - lo + 1)
-/-- `randint(*self.terminal_addr_range)` -/
-def draw (r : Nat) : Nat := randint addrLo addrHi r
 
 inductive Kind where
   | serial    -- `get_serial(-pos)` inside scan_serial_numbers
@@ -60,6 +58,13 @@ structure Cfg where
   serials : List Nat            -- EEPROM serial number per position
   draws : List Nat              -- raw PRNG outputs, in the order randint is called
   tasks : List Task             -- task id = index; started in this order
+  /-- `terminal_addr_range` as configured for this master (class attribute of the master's class or of a subclass,
+  or set on the instance); not configured: the library's default, regenerated from /repo -/
+  lo : Nat := addrLo
+  hi : Nat := addrHi
+
+/-- `randint(*self.terminal_addr_range)` -/
+def draw (cfg : Cfg) (r : Nat) : Nat := randint cfg.lo cfg.hi r
 
 structure St where
   bus : List Nat
@@ -81,13 +86,13 @@ def taskOf (cfg : Cfg) (tid : Nat) : Task := cfg.tasks.getD tid ⟨.init, 0⟩
 
 /-- the part of `find_free_address`'s loop without an `await`: draw until the number is not in
 `used_addresses`; `none` when the PRNG script is exhausted -/
-def drawFresh (used : List Nat) : List Nat → Option (Nat × List Nat)
+def drawFresh (cfg : Cfg) (used : List Nat) : List Nat → Option (Nat × List Nat)
   | [] => none
-  | r :: rs => if draw r ∈ used then drawFresh used rs else some (draw r, rs)
+  | r :: rs => if draw cfg r ∈ used then drawFresh cfg used rs else some (draw cfg r, rs)
 
 /-- `i = randint(..)` … `self.used_addresses.add(i)`; `await self.roundtrip(FPRD, i, 0x10, …)` is sent -/
-def beginFind (st : St) (tid : Nat) : St :=
-  match drawFresh st.used st.draws with
+def beginFind (cfg : Cfg) (st : St) (tid : Nat) : St :=
+  match drawFresh cfg st.used st.draws with
   | none => { st with starved := true, draws := [] }
   | some (a, rest) => { st with used := a :: st.used, draws := rest, pc := upd st.pc tid (.prS a) }
 
@@ -129,8 +134,8 @@ def process (cfg : Cfg) (st : St) (tid : Nat) : St :=
 def deliver (cfg : Cfg) (st : St) (tid : Nat) : St :=
   let t := taskOf cfg tid
   match st.pc tid with
-  | .rdD v => if v = 0 then beginFind st tid else { st with pc := upd st.pc tid (.tlS tailLen v) }
-  | .prD _ true => beginFind st tid
+  | .rdD v => if v = 0 then beginFind cfg st tid else { st with pc := upd st.pc tid (.tlS tailLen v) }
+  | .prD _ true => beginFind cfg st tid
   | .prD a false =>
     { st with returned := st.returned ++ [a], pc := upd st.pc tid (.wrS a), log := st.log ++ [.ret a] }
   | .wrD a =>
@@ -165,7 +170,7 @@ def startTask (cfg : Cfg) (st : St) (tid : Nat) : St :=
   match (taskOf cfg tid).kind with
   | .serial => { st with pc := upd st.pc tid .rdS, queue := st.queue ++ [tid] }
   | .init =>
-    let st' := beginFind st tid
+    let st' := beginFind cfg st tid
     if st'.starved then st' else { st' with queue := st'.queue ++ [tid] }
 
 def base (cfg : Cfg) : St :=
